@@ -586,6 +586,11 @@ def run(ck, facts, tier):
     from . import c13
 
     c13.rule_token_extent(ck, facts)
+    from ..rules import spanorigin
+
+    spanorigin.run(ck, facts, "C04.span-origin", ["mimium_lang"])
+    # the tokenizer terminates and covers every text (model of the combinator value)
+    c13.rule_lexer_model(ck, facts, tier, clauses=("tiling", "no-progress"))
     guards.run(ck, facts, "C03.guarded-index", ["mimium_lang"])
     ck.not_decided("implicit panics (slice/index/overflow asserts) — censused in the evidence counts only")
     ck.not_decided("stack depth for deep nesting; the tokenizer's own termination (chumsky); termination of type inference (dynamic occurs check)")
